@@ -352,4 +352,123 @@ theorem reserved_rel_abs (q r : Str) (h : hasReservedSeg r) : hasReservedSeg (q 
   rw [split_append_sep]
   exact List.mem_append_right _ hseg
 
+/-! ### raw operations and the user view -/
+
+/-- is the part of a name below a node reserved? (`r` is `[]` or `"/…"`) -/
+def relInt : Str → Bool
+  | [] => false
+  | _ :: r => isInternalPath r
+
+theorem suffixBelow_eq (p n r : Str) (h : suffixBelow p n = some r) :
+    n = p ++ r ∧ (r = [] ∨ ∃ r', r = '/' :: r') := by
+  cases hs : stripPrefix p n with
+  | none => simp [suffixBelow, hs] at h
+  | some x =>
+    have hx := stripPrefix_eq p n x hs
+    cases x with
+    | nil =>
+      simp only [suffixBelow, hs, Option.some.injEq] at h
+      subst h; exact ⟨hx, Or.inl rfl⟩
+    | cons c x =>
+      by_cases hc : c = '/'
+      · subst hc
+        simp only [suffixBelow, hs, Option.some.injEq] at h
+        subst h
+        exact ⟨hx, Or.inr ⟨x, rfl⟩⟩
+      · have hnone : suffixBelow p n = none := by
+          simp only [suffixBelow, hs]
+          split
+          · rename_i heq; cases heq
+          · rename_i heq; injection heq with heq; injection heq with h1 _; exact absurd h1 hc
+          · rfl
+        rw [hnone] at h; cases h
+
+theorem hasReservedSeg_append_sep (a b : Str) :
+    hasReservedSeg (a ++ '/' :: b) ↔ hasReservedSeg a ∨ hasReservedSeg b := by
+  unfold hasReservedSeg
+  rw [split_append_sep]
+  constructor
+  · rintro ⟨seg, hm, hs⟩
+    rcases List.mem_append.mp hm with h | h
+    · exact Or.inl ⟨seg, h, hs⟩
+    · exact Or.inr ⟨seg, h, hs⟩
+  · rintro (⟨seg, hm, hs⟩ | ⟨seg, hm, hs⟩)
+    · exact ⟨seg, List.mem_append_left _ hm, hs⟩
+    · exact ⟨seg, List.mem_append_right _ hm, hs⟩
+
+theorem internal_append (p r : Str) (h : r = [] ∨ ∃ r', r = '/' :: r') :
+    isInternalPath (p ++ r) = (isInternalPath p || relInt r) := by
+  rcases h with h | ⟨r', h⟩
+  · subst h; simp [relInt]
+  · subst h
+    rw [Bool.eq_iff_iff]
+    simp only [relInt, Bool.or_eq_true, isInternalPath_iff]
+    exact hasReservedSeg_append_sep p r'
+
+theorem filter_filterMap {α β : Type} (f : α → Option β) (p : α → Bool) (q : β → Bool) (l : List α)
+    (h : ∀ x y, f x = some y → q y = p x) : (l.filterMap f).filter q = (l.filter p).filterMap f := by
+  induction l with
+  | nil => rfl
+  | cons a l ih =>
+    cases hf : f a with
+    | none =>
+      by_cases hp : p a = true
+      · simp [hf, hp, ih]
+      · simp [hf, hp, ih]
+    | some y =>
+      have := h a y hf
+      by_cases hp : p a = true
+      · simp [hf, hp, this, ih]
+      · simp [hf, hp, this, ih]
+
+theorem userView_append (a b : Raw) : userView (a ++ b) = userView a ++ userView b := by
+  simp [userView]
+
+/-- deleting a user node commutes with the user view -/
+theorem userView_delete_comm (p : Str) (raw : Raw) :
+    userView (rawDelete p raw) = rawDelete p (userView raw) := by
+  simp only [userView, rawDelete, List.filter_filter]
+  apply List.filter_congr
+  intro nd _
+  exact Bool.and_comm _ _
+
+/-- deleting a reserved node (and everything below it) does not change the user view -/
+theorem userView_delete_internal (p : Str) (hp : isInternalPath p = true) (raw : Raw) :
+    userView (rawDelete p raw) = userView raw := by
+  simp only [userView, rawDelete, List.filter_filter]
+  apply List.filter_congr
+  intro nd _
+  cases hs : suffixBelow p nd.name with
+  | none => simp
+  | some r =>
+    obtain ⟨hn, hr⟩ := suffixBelow_eq p nd.name r hs
+    have : isInternalPath nd.name = true := by rw [hn, internal_append p r hr, hp]; rfl
+    simp [this]
+
+/-- the nodes a copy adds -/
+def copied (src dst : Str) (raw : Raw) : Raw :=
+  raw.filterMap fun nd => (suffixBelow src nd.name).map fun r => ⟨dst ++ r, nd.isGroup⟩
+
+theorem rawCopy_eq (src dst : Str) (raw : Raw) : rawCopy src dst raw = raw ++ copied src dst raw := rfl
+
+theorem userView_copied_internal (src dst : Str) (hd : isInternalPath dst = true) (raw : Raw) :
+    userView (copied src dst raw) = [] := by
+  simp only [userView, copied, List.filter_eq_nil_iff, List.mem_filterMap, Option.map_eq_some_iff,
+    Bool.not_eq_eq_eq_not, Bool.not_true, Bool.not_eq_false]
+  rintro nd ⟨nd0, _, r, hs, rfl⟩
+  obtain ⟨_, hr⟩ := suffixBelow_eq src nd0.name r hs
+  simp [internal_append dst r hr, hd]
+
+theorem userView_copied_user (src dst : Str) (hs : isInternalPath src = false)
+    (hd : isInternalPath dst = false) (raw : Raw) :
+    userView (copied src dst raw) = copied src dst (userView raw) := by
+  unfold userView copied
+  apply filter_filterMap
+  intro nd y hy
+  simp only [Option.map_eq_some_iff] at hy
+  obtain ⟨r, hsuf, rfl⟩ := hy
+  obtain ⟨hn, hr⟩ := suffixBelow_eq src nd.name r hsuf
+  simp only
+  rw [hn, internal_append dst r hr, internal_append src r hr, hs, hd]
+
 end MetadorModel.Paths
